@@ -17,6 +17,15 @@ CLAIMS = {
          "Bounds as coded in harness/.../core/metadata/zz_verif_c06.go; strings are concrete-length symbolic byte vectors; "
          "intrinsic models for bytealg/strings.Builder/fmt as listed in the evidence; how TypeMeta is derived from Go types is outside.",
          "DESIGN.md 4 (C06)"),
+ "C15": ("For every list of up to 3 routes (2 verbs, up to 2 segments each drawn from two literals and two parameters, with or without doubled/leading/trailing slashes at N=2) "
+         "the real FindConflicts is sound (every conflict names two distinct same-verb entries that overlap by an independent index-loop reference), complete (every overlapping entry is named), "
+         "sorted, and independent of list permutation and of map iteration order; all paths of the bound explored, solver-decided.",
+         "Bounds as coded in harness/.../core/validators/paths/zz_verif_c15.go; fmt %q/%s modelled by the engine's fmt intrinsic; ApiValidator's diagnostics wiring not yet covered.",
+         "DESIGN.md 4 (C15)"),
+ "C20": ("Honoured-in-output kernel: for every permission string up to the stated length, if the configuration validator's own pattern (read from the struct tag, matched by the real regexp package executed symbolically) accepts it, "
+         "getOutputFileMod returns exactly its octal value (0644 for empty); PermissionStringToFileMod errors iff the string is not an octal numeral within 0o7777.",
+         "Bounds as coded in harness/.../generator/routes/zz_verif_c20.go. Outside: json5 decoding and go-playground validator semantics, controllerGlobs, file modes applied by the OS, the other config fields (not yet covered).",
+         "DESIGN.md 4 (C20)"),
 }
 
 NOT_APPLICABLE = {
